@@ -202,6 +202,20 @@ claim('C04',
       'deviation-bounded exploration of forced step rejections on the real integrator with a per-step residual oracle',
       'DESIGN.md#c04')
 
+claim('C05',
+      'Every stand-alone stock case (93 files, enumerated from disk) is loaded, solved and dynamically initialised; the '
+      'reported verdict must equal the harness recomputation of max|f, g| from a fresh residual evaluation (truthfulness, '
+      'unconditional); when the independent precondition holds (every limiter inside, single-slack energised network, online '
+      'static generator behind every dynamic one) initialisation must succeed, bus voltages must equal the power-flow '
+      'solution and an undisturbed 1 s run must stay within 10 tol. The same oracle on a two-machine base system with each of '
+      'the ~55 generically attachable dynamic models (all exciters, governors, stabilisers, compensator, renewable generator '
+      'and controller chain, distributed generators, dynamic loads, motors, measurement devices; exciter x governor pairs in '
+      'thorough), on kundur_full with each dynamic device offline, and on a static generator split between two machines.',
+      'Precondition decided by the harness from live limiter flags; attach uses default parameters; models needing '
+      'companion files only through stock cases.',
+      'exhaustive enumeration of stock cases and attachable models with a residual-recomputation oracle',
+      'DESIGN.md#c05')
+
 _PENDING = 'check not built yet in this round; planned per DESIGN.md (bounded exhaustive exploration applies)'
 for _p in ALL:
     if _p not in CLAIMED:
